@@ -228,6 +228,7 @@ def tasks(tier, seed):
     for k in ([0, 1, 2, 3] if tier == 'quick' else [0, 1, 2, 3, 4, 5, 6]):
         T.append(('times', k))
     T.append(('blocks',))
+    T.append(('blocks_enum',))
     T.append(('bits',))
     T.append(('realcrash',))
     return T
@@ -236,6 +237,8 @@ def tasks(tier, seed):
 def run_task(rep, task):
     if task[0] == 'blocks':
         cm.xhair_task(rep, PID, 'crosshair/c16_blocks.py', timeout_s=60 if rep.tier == 'quick' else 240)
+    elif task[0] == 'blocks_enum':
+        blocks_enum_case(rep)
         return
     if task[0] == 'bits':
         return bits_case(rep)
@@ -876,6 +879,36 @@ def realcrash_case(rep):
                 break
 
 
+def blocks_enum_case(rep):
+    """the part of the block-decomposition clause CrossHair does not confirm (the 'ChatGPT' algorithm loops up to int(nProcs ** 0.5)): ENUMERATED over the
+    rank counts 1..64 of the property, both algorithms, 1-3 dimensions: the block grid has exactly nProcs blocks, and on concrete grids every point
+    belongs to exactly one rank (the per-dimension bounds are decided for all grid sizes by the CrossHair contracts)"""
+    from pySDC.helpers.blocks import BlockDecomposition
+
+    grids = {1: ([7], [64], [1]), 2: ([7, 5], [16, 3], [2, 9]), 3: ([4, 3, 5], [2, 7, 2])}
+    for algo in ('ChatGPT', 'Hybrid'):
+        for dim, gl in grids.items():
+            for grid in gl:
+                for nProcs in range(1, 65):
+                    name = f'blocks/{algo}/grid{grid}/nProcs{nProcs}'
+                    try:
+                        nb = list(BlockDecomposition(nProcs, list(grid), algo=algo).nBlocks)
+                        ok = len(nb) == dim and all(int(b) >= 1 for b in nb) and int(np.prod(nb)) == nProcs
+                        count = np.zeros(grid, dtype=int)
+                        for r in range(nProcs):
+                            i0, n0 = BlockDecomposition(nProcs, list(grid), algo=algo, gRank=r).localBounds
+                            count[tuple(slice(a, a + b) for a, b in zip(i0, n0))] += 1
+                        ok = ok and bool(np.all(count == 1))
+                        rep.translator += 1
+                        if not ok:
+                            rep.violation(f'{PID}/block-decomposition/{algo}', f'{name}: block grid {nb} for {nProcs} ranks; points owned by no rank: {int((count == 0).sum())}, by several ranks: {int((count > 1).sum())}',
+                                          {'task': ['blocks_enum'], 'algo': algo, 'grid': list(grid), 'nProcs': nProcs, 'nBlocks': [int(b) for b in nb]})
+                            break
+                    except Exception as e:
+                        rep.violation(f'{PID}/block-decomposition/{algo}/raises', f'{name}: {type(e).__name__}: {e}', {'task': ['blocks_enum'], 'algo': algo, 'grid': list(grid), 'nProcs': nProcs})
+                        break
+
+
 def replay(path):
     d = json.load(open(path))['replay']
     if d.get('task') == ['overwrite']:
@@ -889,8 +922,20 @@ def replay(path):
         bad = judge_real(res, d['k'], d.get('idx'))
         print(res)
         print('violated:', bad)
-    elif False:
-        pass
+    elif d.get('task') == ['blocks_enum']:
+        from pySDC.helpers.blocks import BlockDecomposition
+
+        count = np.zeros(d['grid'], dtype=int)
+        try:
+            nb = list(BlockDecomposition(d['nProcs'], list(d['grid']), algo=d['algo']).nBlocks)
+            for r in range(d['nProcs']):
+                i0, n0 = BlockDecomposition(d['nProcs'], list(d['grid']), algo=d['algo'], gRank=r).localBounds
+                count[tuple(slice(a, a + b) for a, b in zip(i0, n0))] += 1
+            print('block grid', nb, 'for', d['nProcs'], 'ranks; owners per point:', count.tolist())
+            bad = int(np.prod(nb)) != d['nProcs'] or not bool(np.all(count == 1))
+        except Exception as e:
+            print('raises', type(e).__name__, e)
+            bad = True
     else:
         print(d)
         bad = True
